@@ -1047,3 +1047,7 @@ mod test {
         }
     }
 }
+
+#[cfg(kani)]
+#[path = "/verif/kani/sciparse/std_view.rs"]
+mod verif_std_view;
